@@ -107,6 +107,20 @@ def quiet():
 
     warnings.simplefilter("ignore")
     os.environ.setdefault("TQDM_DISABLE", "1")
+    try:  # progress bars off, whatever verbosity the library picks
+        import tqdm
+
+        if not getattr(tqdm.tqdm, "_xv_quiet", False):
+            _init = tqdm.tqdm.__init__
+
+            def __init__(self, *a, **k):
+                k["disable"] = True
+                return _init(self, *a, **k)
+
+            tqdm.tqdm.__init__ = __init__
+            tqdm.tqdm._xv_quiet = True
+    except ImportError:
+        pass
 
 
 class Silence:
